@@ -676,6 +676,65 @@ def extra_out_targets_leg(report):
                        {"key": ("xo", targets, dbg), "kind": "extra_out_targets", "targets": list(targets), "debug": dbg})
 
 
+def extra_out_mapping_leg(report):
+    """the dump of a model that presents no own key (every field skipped / the extra target is the only field) is still a mapping
+    adaptix builds: never the object's own mapping (as-is extra target typed Any, extractor handing out the object's dict), so
+    changing the dump does not change the object and two dumps share nothing but the Any-typed values"""
+    from adaptix import name_mapping
+
+    @dataclass
+    class OnlyData:
+        data: Any
+
+    @dataclass
+    class Event:
+        kind: str
+        payload: Any
+
+    @dataclass
+    class Holder:
+        ev: Event
+        evs: List[OnlyData]
+
+    payload = lambda: {"x": 1, "y": [2]}      # noqa: E731
+    programs = [
+        ("OnlyData/target", OnlyData, [name_mapping(OnlyData, extra_out="data")], lambda: OnlyData(payload())),
+        ("Event/extractor, all fields skipped", Event, [name_mapping(Event, skip=["kind", "payload"], extra_out=lambda e: e.payload)],
+         lambda: Event("click", payload())),
+        ("Event/extractor, one own field", Event, [name_mapping(Event, skip=["payload"], extra_out=lambda e: e.payload)],
+         lambda: Event("click", payload())),
+        ("Event/target, other field skipped", Event, [name_mapping(Event, skip=["kind"], extra_out="payload")],
+         lambda: Event("click", payload())),
+        ("Holder/nested", Holder, [name_mapping(OnlyData, extra_out="data"),
+                                   name_mapping(Event, skip=["kind", "payload"], extra_out=lambda e: e.payload)],
+         lambda: Holder(Event("k", payload()), [OnlyData(payload()), OnlyData({})])),
+    ]
+
+    def own_mappings(a):
+        if isinstance(a, OnlyData):
+            return [a.data]
+        if isinstance(a, Event):
+            return [a.payload]
+        return [a.ev.payload, *[x.data for x in a.evs]]
+    for name, cls, recipe, mk in programs:
+        for dbg in ("DISABLE", "FIRST", "ALL"):
+            try:
+                dumper = retort_with(recipe, (dbg, True)).get_dumper(cls)
+            except Exception:  # noqa: BLE001
+                report.outcome("extra_out mapping leg: refused")
+                continue
+
+            def allowed(a):
+                # the values inside the extra mappings are Any-typed; the mappings themselves are not
+                ids = set()
+                for m in own_mappings(a):
+                    for v in m.values():
+                        ids.update(containers(v))
+                return ids
+            purity(report, {"check": "C20.model_dump", "site": "extra_out_mapping"}, f"dump {name} [{dbg}]", dumper, mk, allowed,
+                   {"key": ("xom", name, dbg), "kind": "extra_out_mapping", "program": name, "debug": dbg})
+
+
 class _Env:
     """takes its data only through a saturator"""
     def __init__(self):
@@ -825,6 +884,7 @@ def run(tier):
     error_objects_leg(report)
     extra_out_targets_leg(report)
     extra_in_mapping_leg(report)
+    extra_out_mapping_leg(report)
     return report
 
 
@@ -851,6 +911,8 @@ def replay(case):
         extra_out_targets_leg(report)
     elif case["kind"] == "extra_in_mapping":
         extra_in_mapping_leg(report)
+    elif case["kind"] == "extra_out_mapping":
+        extra_out_mapping_leg(report)
     else:
         conv_leg(report)
     for v in report.violations.values():
